@@ -24,6 +24,11 @@ class C14(Prop):
                 ops.append(mk('dect %s b%s' % (t, body.hex()), k='notag', body=body.hex(), t=t, tagnum=None))
                 ops.append(mk('dect %s b%s' % (t, (refcbor.head(6, tag) * 2 + body).hex()), k='double', body=body.hex(), t=t, tagnum=-1))
                 ops.append(mk('dec %s b%s' % (t, (refcbor.head(6, tag) + body).hex()), k='untagged-on-tagged', t=t, must_reject=True))
+                for tg in tags:
+                    # any tag in front of the body is rejected by untagged decoding; any second tag (outside or inside) by tagged decoding
+                    ops.append(mk('dec %s b%s' % (t, (refcbor.head(6, tg) + body).hex()), k='untagged-on-tag%d' % tg, t=t, must_reject=True))
+                    ops.append(mk('dect %s b%s' % (t, (refcbor.head(6, tg) + refcbor.head(6, tag) + body).hex()), k='outer-tag', t=t, must_reject=True))
+                    ops.append(mk('dect %s b%s' % (t, (refcbor.head(6, tag) + refcbor.head(6, tg) + body).hex()), k='inner-tag', t=t, must_reject=True))
                 for t2 in TAGGED:
                     if t2 != t and r.random() < 0.4:
                         ops.append(mk('dect %s b%s' % (t2, (refcbor.head(6, tag) + body).hex()), k='cross', t=t2, must_reject=True))
@@ -292,7 +297,7 @@ class C20(Prop):
     pid = 'C20'
     def gen(self, seed, tier):
         r = random.Random(seed); g = T(seed, valid=1.0); ops = []
-        extras = ['i-1', 'i-2', 'i-65537', 'i%d' % (-2**63), 'i0', 'i6', 'i23', 'i24', 'i255', 'i256', 'i65536', 'i%d' % (2**63 - 1), 't', 't61', 't62', 't6161', 't' + (b'x' * 24).hex(), 'i-24', 'i-25', 'i-256', 'i-257']
+        extras = ['i-1', 'i-2', 'i-65537', 'i%d' % (-2**63), 'i0', 'i6', 'i23', 'i24', 'i255', 'i256', 'i65536', 'i%d' % (2**63 - 1), 't', 't61', 't62', 't6161', 't' + (b'x' * 24).hex(), 'i-24', 'i-25', 'i-256', 'i-257', 'tc3a9', 'tc3a9c3a9', 't616263', 'te282ac', 't7a7a']
         def keyform(params):
             kty = r.choice(['A1', 'A2', 'A4', 'X6b']); kid = r.choice(['b', 'b01']); alg = r.choice(['-', 'A-7', 'P-70000', 'X61'])
             ops_ = r.choice(['', ' A1', ' A2 A1', ' X78 A10 A3']); biv = r.choice(['b', 'b0909'])
